@@ -1006,6 +1006,11 @@ def run(ctx, report):
     from .c12 import readonly_methods_rule
     readonly_methods_rule(ctx, R11)
 
+    # ---------------------------------------------------------------- D12 the rendering shows the segment override (shared with C09.D13)
+    R12 = report.rule('C01.D12', 'the Intel rendering of a memory operand shows its segment override, whichever segment it is (dict_to_ad evaluated on segment x address shape)', floor=40)
+    from .c09 import segment_render_rule
+    segment_render_rule(ctx, R12)
+
 
 MUTANTS = [
     ('pinsrw-mem-dword', 'miasmx/arch/ia32_arch.py', "    '#p#insrb':   x86_afs.u08, '#p#insrw':   x86_afs.u16,", "    '#p#insrb':   x86_afs.u08,", 'C01.D5'),
